@@ -418,3 +418,21 @@ fn c19_bmp_records() {
     }
     std::panic::set_hook(hook);
 }
+
+/// The real BmpClient::serve on `stream` (used by the session harness in event.rs).
+pub(crate) fn serve_for_test(
+    stream: TcpStream,
+    cancel: CancellationToken,
+    global: GlobalHandle,
+    tables: TableHandle,
+    policy: &str,
+) -> tokio::task::JoinHandle<()> {
+    let policy = match policy {
+        "pre" => BmpPolicy::Pre,
+        "post" => BmpPolicy::Post,
+        "both" => BmpPolicy::Both,
+        "local" => BmpPolicy::Local,
+        _ => BmpPolicy::All,
+    };
+    tokio::spawn(BmpClient::serve(stream, cancel, global, tables, policy))
+}
